@@ -99,6 +99,18 @@ def r12_1(ctx: Ctx, closure: Dict[str, Func]) -> None:
                           "a write-effect method is applied to the archive handle in the read-mode closure",
                           path=ctx.res.call_path(roots, fq))
     ctx.floor("R12.1", n_writes, 3, "write-effect calls inspected in the read closure")
+    # no destructive filesystem call on the archive's own name
+    DESTRUCTIVE = {"os.remove", "os.unlink", "os.rename", "os.replace", "os.truncate", "shutil.move", "shutil.copyfile", "shutil.rmtree"}
+    for fq, f in sorted(closure.items()):
+        for c in q.calls(f):
+            nm = dotted(c.func)
+            operand = None
+            if nm in DESTRUCTIVE and c.args:
+                operand = c.args[0]
+            elif isinstance(c.func, ast.Attribute) and c.func.attr in ("unlink", "rename", "replace", "write_bytes", "write_text", "truncate") and "filename" in norm(c.func.value):
+                operand = c.func.value
+            if operand is not None and any(isinstance(n, ast.Attribute) and n.attr in ("filename", "name") for n in ast.walk(operand)):
+                ctx.fail("R12.1", f, c, "the archive file itself is removed / renamed / truncated in the read-mode closure", path=ctx.res.call_path(roots, fq))
     # writer functions outside the closure
     for wq in WRITER_FUNCS:
         mod, qual = wq.split(":")
